@@ -86,6 +86,18 @@ Theorem C02_ema_binary64_within_tau : forall p s xs M, ema_new FOps p = Ok s -> 
      (1 / 10 ^ 12 + 1 / 10 ^ 15 * (INR (j + 1) * R_sqrt.sqrt (INR (j + 1)))) * M)%R.
 Proof. exact ema_float_within_tau. Qed.
 
+(* ... and for streams of ANY length the error does not grow at all: the recursion contracts (factor 1 - alpha + 7u), so it
+   saturates at 34 u M / alpha = 17 (n+1) 2^-53 M, for every period below 2^47 — binary64 EMA does not drift *)
+Theorem C02_ema_binary64_uniform : forall p s xs M, ema_new FOps p = Ok s -> (p < 140737488355328)%N ->
+  (bpow radix2 (-960) <= M)%R -> (M <= bpow radix2 990)%R -> Forall (okin M) xs ->
+  let outs := ema_outs FOps s xs in
+  let reals := ema_stream (kreal p) (map FR xs) in
+  length outs = length xs /\
+  forall j, (j < length xs)%nat ->
+    finF (nth j outs 0%float) /\
+    (Rabs (FR (nth j outs 0%float) - nth j reals 0) <= 17 * (IZR (Z.of_N p) + 1) * u * M)%R.
+Proof. exact ema_float_uniform. Qed.
+
 (* ... and for AverageTrueRange (scalar path): TrueRange rounds once, the float EMA is within 32 t u M' of the real EMA of its float
    inputs, and the real EMA is 1-Lipschitz in its inputs: within (96 t + 3) * 2^-53 * M <= tau(t) * M of EMA(|x_t - x_{t-1}|) *)
 From TA Require Import Proofs.XCov Proofs.FloatAtr.
